@@ -335,7 +335,10 @@ def run_vectors(case):
         if tuple(L.shape) != (grid.ndim, grid.ndim):
             raise Violation("vector_matrix_shape", f"transform(vectors=True) has shape {tuple(L.shape)}")
         H = grid.transform(A, B, to_grid=grid2)
-        check_close(L, H[:, : grid.ndim], 0.0 if grid2 is None else 8 * EPS32 * max(1.0, float(H.abs().max())),
+        # both matrices are float32 products (world -> b) @ (a -> world) evaluated along different code paths:
+        # their rounding errors are bounded component-wise by eps * |B| |A|
+        prod = np.abs(m2.matrix("world", b)[:, : m.D]) @ np.abs(m.matrix(a, "world")[:, : m.D])
+        check_close(L, H[:, : grid.ndim], 0.0 if grid2 is None else K * EPS32 * max(1.0, float(prod.max())),
                     "vector_matrix_vs_point_matrix", f"transform({a},{b},vectors=True) != linear block of point transform")
         out = homogeneous_transform(L.to(dt), v, vectors=True)
     if not torch.equal(v, v0):
